@@ -1,6 +1,7 @@
 import PdfModel.Lemmas.ObjStm
 import PdfModel.Lemmas.Offsets
 import PdfModel.Lemmas.SuffixConcrete
+import PdfModel.Lemmas.ShiftDecrypt
 import PdfModel.Lemmas.Serialize
 
 /-!
@@ -266,6 +267,10 @@ third-party: `env.parseReal` (`f32::from_str`) and the filter chain `dec`. -/
 
 section Concrete
 open PdfLex PdfShift
+
+/-- an environment for the evaluated examples -/
+def cEnvC : PdfLex.Env Unit :=
+  { parseReal := fun _ => some (), resolveLen := fun _ _ => .err, allowMissingEndobj := false, decrypt := none, fileOffset := 0 }
 open PdfSyntax (Gap Bnd Spells needsBnd KeysDistinct namesUtf8 vdepth need wf_of NatTok)
 
 variable {R : Type}
@@ -447,6 +452,135 @@ theorem serialized_member_concrete (env : Env R) (hd : env.decrypt = none) (fmt 
     · exact hsep b h
   have := (slice_parse_ignores_trailing_ws env hd v txt hsp hk hu hdepth (trail ++ sep) hws (by simpa using hsz) flags hfl).1
   simpa using this
+
+/-! ### encrypted documents
+
+In an encrypted document the strings of an ordinary indirect object are encrypted with the key of that object
+(number, generation); the strings of a member of an object stream are *not* encrypted individually — the
+stream's data is, as a whole, and `Stream::data` has already decrypted it.  In the model the difference is the
+decryption context of the parser: `parse_indirect_object` runs with `Some(Context { id, .. })`
+(`concreteP.objAt`), `parse(slice, resolve, flags)` of the compressed branch with none
+(`concreteP.parseMember`).  `e` is the writer's encryptor, `d` the reader's decryptor (third party: RC4 / AES
+with the object key), the hypothesis is that `d` inverts `e` for the direct twin's key. -/
+
+theorem flagOf_mapStr (f : List UInt8 → List UInt8) (v : Prim R) : flagOf (mapStr f v) = flagOf v := by
+  cases v <;> rfl
+
+/-- the compressed branch does not consult the decryptor: a member reads as its plaintext value -/
+theorem compressed_reads_member_encrypted (env : Env R) (hd : env.decrypt = none)
+    (d : Nat → Nat → List UInt8 → List UInt8) (pfuel : Nat)
+    (dec : Dict R → OffLex.Bytes → Out OffLex.Bytes) (X : OffLex.Bytes → Out (List Xref.Sub × Dict R))
+    (S : OffLex.Bytes → List (Out (Obj (Prim R))))
+    (buf : OffLex.Bytes) (start : Nat) (t : Xref.Table) (fuel : Nat) (chain : List Nat) (flags : Offsets.Flags)
+    (id sid idx : Nat) (info : Prim R) (a b : Nat) (raw : OffLex.Bytes) (ms : List Member) (v : Prim R)
+    (hlook : Xref.lookup t id = .compressed sid idx)
+    (hchain : chain.contains sid = false)
+    (hstm : resolveRef (concreteP (withDec env d) pfuel dec X S) buf start t fuel (sid :: chain) .any sid = .ok (.stream info a b))
+    (hhead : (concreteP (withDec env d) pfuel dec X S).stmHead info = .ok ((pack ms).n, (pack ms).first))
+    (hraw : readRange buf a b = .ok raw)
+    (hdec : (concreteP (withDec env d) pfuel dec X S).decode info raw = .ok (pack ms).data)
+    (hi : idx < ms.length) (hw : WellSized ms)
+    (hsp : Spells env.parseReal v ms[idx].text) (hk : KeysDistinct v) (hu : namesUtf8 v = true)
+    (hdepth : vdepth v ≤ maxDepth) (hsep : AllWs ms[idx].sep)
+    (hsz : (ms[idx].text ++ ms[idx].sep).length ≤ 2147483647)
+    (hfl : flagsNat flags &&& flagOf v ≠ 0) :
+    resolveRef (concreteP (withDec env d) pfuel dec X S) buf start t (fuel + 1) chain flags id = .ok (.plain v) := by
+  rw [compressed_reads_member (concreteP (withDec env d) pfuel dec X S) buf start t fuel chain flags id sid idx info a b raw ms
+    hlook hchain hstm hhead hraw hdec hi hw]
+  have : (concreteP (withDec env d) pfuel dec X S).parseMember flags (ms[idx].text ++ ms[idx].sep) = .ok v := by
+    show omap Prod.fst (parse (withDec { env with fileOffset := 0 } d) (ms[idx].text ++ ms[idx].sep).toArray (flagsNat flags)) = .ok v
+    rw [parse_ignores_decryptor]
+    rw [parse_member_slice (noDec { env with fileOffset := 0 }) rfl v _ hsp hk hu hdepth _ hsep hsz _ hfl]; rfl
+  rw [this]; rfl
+
+/-- the direct branch decrypts the strings with the object's own key -/
+theorem direct_reads_text_encrypted (env : Env R) (e d : Nat → Nat → List UInt8 → List UInt8) (pfuel : Nat)
+    (dec : Dict R → OffLex.Bytes → Out OffLex.Bytes) (X : OffLex.Bytes → Out (List Xref.Sub × Dict R))
+    (S : OffLex.Bytes → List (Out (Obj (Prim R))))
+    (buf : OffLex.Bytes) (start : Nat) (t : Xref.Table) (fuel : Nat) (chain : List Nat) (flags : Offsets.Flags)
+    (id pos q : Nat) (v : Prim R) (text g0 na g1 nb g2 g3 g4 rest : List UInt8) (oid ogen : Nat)
+    (hinv : ∀ s, d oid ogen (e oid ogen s) = s)
+    (hlook : Xref.lookup t id = .direct pos)
+    (hsfx : suffixAt buf start pos = .ok (q, g0 ++ na ++ g1 ++ nb ++ g2 ++ kwObj ++ g3 ++ text ++ g4 ++ kwEndobj ++ rest))
+    (hsp : Spells env.parseReal (mapStr (e oid ogen) v) text) (hk : KeysDistinct (mapStr (e oid ogen) v))
+    (hu : namesUtf8 (mapStr (e oid ogen) v) = true) (hdepth : vdepth (mapStr (e oid ogen) v) ≤ maxDepth)
+    (hsz : (g0 ++ na ++ g1 ++ nb ++ g2 ++ kwObj ++ g3 ++ text ++ g4 ++ kwEndobj ++ rest).length ≤ 2147483647)
+    (hg0 : Gap g0) (ha : NatTok na oid) (hb : NatTok nb ogen) (hg1 : Gap g1) (hg1ne : g1 ≠ []) (hg2 : Gap g2)
+    (hg2ne : g2 ≠ []) (hid : oid ≤ 18446744073709551615) (hgen : ogen ≤ 18446744073709551615) (hg3 : Gap g3) (hg4 : Gap g4)
+    (hb3 : Bnd (g3 ++ text)) (hb4 : needsBnd (mapStr (e oid ogen) v) = true → g4 ≠ []) (hbnd : Bnd rest)
+    (hfuel : need (mapStr (e oid ogen) v) ≤ pfuel)
+    (hfl : flagsNat flags &&& flagOf v ≠ 0) :
+    resolveRef (concreteP (withDec env d) pfuel dec X S) buf start t (fuel + 1) chain flags id = .ok (.plain v) := by
+  simp only [resolveRef, hlook, directBody, hsfx]
+  have hp := parseIndirectObject_spells (noDec { env with fileOffset := 0 }) rfl (mapStr (e oid ogen) v) text hsp
+    (wf_of _ hk hu)
+    (buf := (g0 ++ na ++ g1 ++ nb ++ g2 ++ kwObj ++ g3 ++ text ++ g4 ++ kwEndobj ++ rest).toArray) (by simpa using hsz)
+    g0 na g1 nb g2 g3 g4 rest oid ogen 0 pfuel hg0 ha hb hg1 hg1ne hg2 hg2ne hid hgen hg3 hg4 (suffix_zero _) hb3 hb4 hbnd
+    hfuel hdepth (flagsNat flags) (by rw [flagOf_mapStr]; exact hfl)
+  have : (concreteP (withDec env d) pfuel dec X S).objAt flags (g0 ++ na ++ g1 ++ nb ++ g2 ++ kwObj ++ g3 ++ text ++ g4 ++ kwEndobj ++ rest)
+      = .ok (.plain v) := by
+    show toObjParse (parseIndirectObject (withDec { env with fileOffset := 0 } d) _ pfuel 0 (flagsNat flags)) = _
+    rw [parseIndirectObject_dec, hp]
+    simp only [omap, mapStr_inverts (e oid ogen) (d oid ogen) hinv v]
+    cases v with
+    | stream info inner => simp [mapStr, Spells] at hsp
+    | _ => rfl
+  rw [this]
+
+/-- **`stored_equal_encrypted`.** In an encrypted document a value stored as an ordinary indirect object (its
+    strings encrypted with the object's key by `e`) and the same value stored as a member of an object stream
+    (strings in clear inside the encrypted stream) resolve to the same — the plaintext — value, under any
+    decryptor `d` that inverts the writer's encryptor for the direct object's key.  The direct branch passes the
+    object's key to the parser, the compressed branch passes none; passing one there would decrypt the
+    member's strings a second time. -/
+theorem stored_equal_encrypted (env : Env R) (hd : env.decrypt = none) (e d : Nat → Nat → List UInt8 → List UInt8)
+    (pfuel : Nat) (dec : Dict R → OffLex.Bytes → Out OffLex.Bytes) (X : OffLex.Bytes → Out (List Xref.Sub × Dict R))
+    (S : OffLex.Bytes → List (Out (Obj (Prim R))))
+    (buf : OffLex.Bytes) (start : Nat) (t : Xref.Table) (fuel : Nat) (chain : List Nat) (flags : Offsets.Flags)
+    (v : Prim R) (hfl : flagsNat flags &&& flagOf v ≠ 0)
+    -- the direct twin: `oid ogen obj <v with encrypted strings> endobj`
+    (id₁ pos q : Nat) (text g0 na g1 nb g2 g3 g4 rest : List UInt8) (oid ogen : Nat)
+    (hinv : ∀ s, d oid ogen (e oid ogen s) = s)
+    (hlook₁ : Xref.lookup t id₁ = .direct pos)
+    (hsfx : suffixAt buf start pos = .ok (q, g0 ++ na ++ g1 ++ nb ++ g2 ++ kwObj ++ g3 ++ text ++ g4 ++ kwEndobj ++ rest))
+    (hsp : Spells env.parseReal (mapStr (e oid ogen) v) text) (hkE : KeysDistinct (mapStr (e oid ogen) v))
+    (huE : namesUtf8 (mapStr (e oid ogen) v) = true) (hdepthE : vdepth (mapStr (e oid ogen) v) ≤ maxDepth)
+    (hsz : (g0 ++ na ++ g1 ++ nb ++ g2 ++ kwObj ++ g3 ++ text ++ g4 ++ kwEndobj ++ rest).length ≤ 2147483647)
+    (hg0 : Gap g0) (ha : NatTok na oid) (hb : NatTok nb ogen) (hg1 : Gap g1) (hg1ne : g1 ≠ []) (hg2 : Gap g2)
+    (hg2ne : g2 ≠ []) (hid : oid ≤ 18446744073709551615) (hgen : ogen ≤ 18446744073709551615) (hg3 : Gap g3) (hg4 : Gap g4)
+    (hb3 : Bnd (g3 ++ text)) (hb4 : needsBnd (mapStr (e oid ogen) v) = true → g4 ≠ []) (hbnd : Bnd rest)
+    (hfuel : need (mapStr (e oid ogen) v) ≤ pfuel)
+    -- the compressed twin: the plaintext spelling as a member
+    (id₂ sid idx : Nat) (info : Prim R) (a b : Nat) (raw : OffLex.Bytes) (ms : List Member)
+    (hlook₂ : Xref.lookup t id₂ = .compressed sid idx)
+    (hchain : chain.contains sid = false)
+    (hstm : resolveRef (concreteP (withDec env d) pfuel dec X S) buf start t fuel (sid :: chain) .any sid = .ok (.stream info a b))
+    (hhead : (concreteP (withDec env d) pfuel dec X S).stmHead info = .ok ((pack ms).n, (pack ms).first))
+    (hraw : readRange buf a b = .ok raw)
+    (hdec : (concreteP (withDec env d) pfuel dec X S).decode info raw = .ok (pack ms).data)
+    (hi : idx < ms.length) (hw : WellSized ms)
+    (hsp₂ : Spells env.parseReal v ms[idx].text) (hk : KeysDistinct v) (hu : namesUtf8 v = true)
+    (hdepth : vdepth v ≤ maxDepth) (hsep : AllWs ms[idx].sep)
+    (hsz₂ : (ms[idx].text ++ ms[idx].sep).length ≤ 2147483647) :
+    resolveRef (concreteP (withDec env d) pfuel dec X S) buf start t (fuel + 1) chain flags id₁ = .ok (.plain v) ∧
+    resolveRef (concreteP (withDec env d) pfuel dec X S) buf start t (fuel + 1) chain flags id₂ = .ok (.plain v) :=
+  ⟨direct_reads_text_encrypted env e d pfuel dec X S buf start t fuel chain flags id₁ pos q v text g0 na g1 nb g2 g3 g4 rest
+      oid ogen hinv hlook₁ hsfx hsp hkE huE hdepthE hsz hg0 ha hb hg1 hg1ne hg2 hg2ne hid hgen hg3 hg4 hb3 hb4 hbnd hfuel hfl,
+   compressed_reads_member_encrypted env hd d pfuel dec X S buf start t fuel chain flags id₂ sid idx info a b raw ms v
+      hlook₂ hchain hstm hhead hraw hdec hi hw hsp₂ hk hu hdepth hsep hsz₂ hfl⟩
+
+def isStrC (bs : List UInt8) : Out (PdfLex.Prim Unit × Nat) → Bool
+  | .ok (.str s, _) => s == bs
+  | _ => false
+
+/-- **The variant that decrypts members too is wrong.** A parser run *with* a context on a member slice applies
+    the decryptor to the member's strings: with `d` = "flip every byte" the plaintext string `(a)` stored in an
+    object stream would read as the byte 0x9E; `parse` (no context) reads `a`. -/
+theorem member_with_context_decrypts_twice :
+    isStrC [158] (parseCtx (withDec cEnvC (fun _ _ s => s.map (fun b => b ^^^ 255))) #[40, 97, 41] 10 0 (some (7, 0)) 1023 maxDepth)
+      = true ∧
+    isStrC [97] (parse (withDec cEnvC (fun _ _ s => s.map (fun b => b ^^^ 255))) #[40, 97, 41] 1023) = true := by
+  decide +kernel
 
 end Concrete
 
